@@ -176,9 +176,15 @@ def run(chk: Check, replay=None):
     chk.assumptions += ["StlSem.tla (IO part) transcribes the documentation of the input / print / cast macros; after the step's input the device serves zero bits "
                         "(a real end of input would end the whole run); on a documented error branch the destination is unspecified",
                         "the pointer-based buffer helpers of hex/strings.fj are covered with the pointer macros (C08)"]
+    from fjv import c08
     if quick:
         run_width(chk, fjm_run, 64, [1, 2, 4], 2500, rng)
         run_width(chk, fjm_run, 32, [3], 600, rng)
+        # the byte-buffer helpers (line input, text / line print, fill, copy) on the pointer arena of C08
+        c08.run_arena(chk, fjm_run, 64, c08.buffer_blocks(rng, 64), True, 300, 3, rng, "buffers")
+        c08.run_arena(chk, fjm_run, 32, c08.buffer_blocks(rng, 32), True, 150, 3, rng, "buffers")
     else:
         run_width(chk, fjm_run, 64, [1, 2, 3, 4, 8, 16], 40000, rng)
         run_width(chk, fjm_run, 32, [1, 2, 5, 8], 20000, rng)
+        c08.run_arena(chk, fjm_run, 64, c08.buffer_blocks(rng, 64), True, 6000, 5, rng, "buffers")
+        c08.run_arena(chk, fjm_run, 32, c08.buffer_blocks(rng, 32), True, 3000, 5, rng, "buffers")
